@@ -129,6 +129,14 @@ func replay(in, out string) {
 				bc, nq := bigCase(pr["kind"].(string), int(pr["nreq"].(float64)), ks, pr["prop"].(string))
 				runBigCase(t, newMeta(""), rand.New(rand.NewSource(ks+1)), bc, nq, "replay", Ev{"kind": pr["kind"], "nreq": pr["nreq"], "kseed": pr["kseed"], "prop": pr["prop"]})
 			}
+		case "scanbig":
+			pr := e["params"].(map[string]interface{})
+			if key := fmt.Sprint(pr["kind"], pr["n"], pr["kseed"]); key != lastScanBig { // re-emits both phases
+				lastScanBig = key
+				var ks int64
+				fmt.Sscan(pr["kseed"].(string), &ks)
+				runScanBig(t, newMeta(""), pr["kind"].(string), int(pr["n"].(float64)), ks)
+			}
 		case "renderbig":
 			pr := e["params"].(map[string]interface{})
 			if key := fmt.Sprint(pr["kind"], pr["nreq"], pr["kseed"]); key != lastRenderBig { // re-emits both phases (fresh and reloaded)
